@@ -35,6 +35,7 @@ def rules(ctx):
     c156(ctx)
     c157(ctx)
     c158(ctx)
+    c159(ctx)
 
 
 def c158(ctx):
@@ -76,6 +77,33 @@ def c158(ctx):
                           "%s shifts left by an amount that grows with every byte of the input, in a loop that nothing bounds by a constant: ten "
                           "continuation bytes followed by more input shift by 70 -- a panic in a checked build, a wrapped shift and a garbage value otherwise" % f.skey, pt=pt)
     ctx.floor(R, "loop-carried shift amounts in the varint decoders", n, 1)
+
+
+def c159(ctx):
+    R = "C15.9"
+    ctx.declare(R, "packing to a writer writes all pack_sz() bytes or fails: Packable::stream hands its bytes to write_all, and nothing in the codec "
+                   "crates calls the single-shot Write::write outside a loop that re-offers the remainder (a short write would return Ok(n) with n < pack_sz())")
+    st = [g for k, g in ctx.prog.fns.items() if k.endswith("buffertk::Packable::stream")]
+    ctx.floor(R, "Packable::stream", len(st), 1)
+    for f in st:
+        wa = P.call_points(f, r"io::Write::write_all$|as std::io::Write>::write_all$")
+        q = P.must_pass(f, wa) if wa else [0]
+        ctx.check(R, f, "stream-writes-all", bool(wa) and q is None, "stream passes through write_all on every success path",
+                  "Packable::stream can return Ok without having handed all its bytes to write_all: a writer that accepts part of the buffer leaves a "
+                  "truncated encoding behind and the byte count the callers add to their offsets is short")
+    n = 0
+    for f in sorted(ctx.prog.fns.values(), key=lambda f: f.key):
+        if f.crate not in ("buffertk", "prototk", "sst", "mani"):
+            continue
+        if f.name == "write" and (f.impl_trait or "").endswith("io::Write"):
+            continue        # a Write impl that delegates write() to the file it wraps promises no more than that file does
+        for pt in P.call_points(f, r"io::Write::write$|as std::io::Write>::write$"):
+            n += 1
+            looped = P.reach(f, P.after(f, pt), [pt]) is not None
+            ctx.check(R, f, "no-single-shot-write", looped, "the write is re-offered in a loop",
+                      "%s calls Write::write once and takes its count for the whole buffer" % f.skey, pt=pt)
+    if n == 0:
+        ctx.ok(R, "buffertk", "no single-shot Write::write in buffertk, prototk, sst, mani")
 
 
 def pack_table(f):
